@@ -137,6 +137,9 @@ BENIGN = [
     dict(id="b20-control-byte-if-chain", note="ControlByte::try_from rewritten from a match into an if / early-return chain", edits=[
         ("src/ctap1.rs", "        match byte {\n            0x07 => Ok(ControlByte::CheckOnly),\n            0x03 => Ok(ControlByte::EnforceUserPresenceAndSign),\n            0x08 => Ok(ControlByte::DontEnforceUserPresenceAndSign),\n            _ => Err(Error::IncorrectDataParameter),\n        }",
          "        if byte == 0x07 {\n            return Ok(ControlByte::CheckOnly);\n        }\n        if byte == 0x03 {\n            Ok(ControlByte::EnforceUserPresenceAndSign)\n        } else if byte == 0x08 {\n            Ok(ControlByte::DontEnforceUserPresenceAndSign)\n        } else {\n            Err(Error::IncorrectDataParameter)\n        }")]),
+    dict(id="b21-filter-loop-let-else", note="filter visit_seq: `while let` rewritten as `loop { let Some(v) = next()? else { break }; .. }`", edits=[
+        ("src/webauthn.rs", "                while let Some(value) = seq.next_element::<PublicKeyCredentialParameters>()? {\n                    let Ok(el) = value.try_into() else {",
+         "                loop {\n                    let Some(value) = seq.next_element::<PublicKeyCredentialParameters>()? else {\n                        break;\n                    };\n                    let Ok(el) = value.try_into() else {")]),
     dict(id="b15-items-moved", note="an impl block and a struct moved within the file", edits=[
         ("src/operation.rs", "impl Operation {\n    pub fn into_u8(self) -> u8 {\n        self.into()\n    }\n}\n\n", ""),
         ("src/operation.rs", "impl TryFrom<u8> for Operation {", "impl Operation {\n    pub fn into_u8(self) -> u8 {\n        self.into()\n    }\n}\n\nimpl TryFrom<u8> for Operation {")]),
